@@ -206,23 +206,29 @@ theorem comparison_is_bool (S : Sig) (Γ : TyEnv) (op : String) (a b : Query) (t
 example : (typeOf exSig [("j", .obj "Aa")] (.cmp ">" (.meth (.var "j") "i") (.dbl 15 (-1)))).toOption = some .bool := by decide +kernel
 example : (typeOf exSig [("j", .obj "Aa")] (.and (.meth (.var "j") "b") (.not (.meth (.var "j") "b")))).toOption = some .bool := by decide +kernel
 
-/-! ### where the translator's own rule is NOT the type of Python's value (constructs outside the generated
-stream; replayed on the real translator, see the report of this property) -/
+/-- **C03.not_is_bool_of_a_number** — `not x` is `bool` whatever scalar `x` is: `not 2` is the boolean `False`,
+which would not fit a column of the operand's type `int`. (`visit_UnaryOp` books `bool` for `not` since fix
+ea7911a; before it kept the operand's type. The deterministic `typing-rules` stream of the check has `not` on
+int / float / double operands.) -/
+theorem not_is_bool_of_a_number :
+    denote exCtx [] (.not (.int 2)) = .ok (.bool false) ∧ hasCTy exSig (.bool false : Val Int) .int = false ∧
+    typeOf exSig [] (.not (.int 2)) = .ok .bool ∧
+    (∀ (S : Sig) (Γ : TyEnv) (a : Query) (ta : CTy), typeOf S Γ a = .ok ta → ta.isScalar = true →
+      typeOf S Γ (.not a) = .ok .bool) :=
+  ⟨rfl, rfl, rfl, fun S Γ a ta ha hs => by simp [typeOf, ha, notTy, hs]⟩
 
-/-- `visit_UnaryOp` gives `-x` the operand's type. For a boolean operand Python computes an `int`
+/-! ### where the translator's own rule is NOT the type of Python's value (constructs outside the generated
+stream; replayed on the real translator at /repo HEAD 1c4553a, see the report of this property) -/
+
+/-- `visit_UnaryOp` gives `-x` (and `+x`) the operand's type. For a boolean operand Python computes an `int`
 (`-True == -1`): the value does not fit the `bool` column the translator books (`typeOf` says `int`). -/
 theorem neg_bool_counterexample :
     denote exCtx [] (.neg (.bool true)) = .ok (.int (-1)) ∧ hasCTy exSig (.int (-1) : Val Int) .bool = false ∧
     typeOf exSig [] (.neg (.bool true)) = .ok .int := ⟨rfl, rfl, rfl⟩
 
-/-- `visit_UnaryOp` gives `not x` the operand's type too: `not 2` is the boolean `False`, the translator
-books an `int` column (`typeOf` says `bool`). -/
-theorem not_int_counterexample :
-    denote exCtx [] (.not (.int 2)) = .ok (.bool false) ∧ hasCTy exSig (.bool false : Val Int) .int = false ∧
-    typeOf exSig [] (.not (.int 2)) = .ok .bool := ⟨rfl, rfl, rfl⟩
-
-/-- `visit_IfExp` is always `double`: with boolean arms the value is a boolean, which is not a floating
-value (`typeOf` assigns no type to such a conditional). -/
+/-- `visit_IfExp` is always `double` (a STRING arm is refused since fix 6a224ae, any other arm is accepted): with
+boolean arms the value is a boolean, which is not a floating value (`typeOf` assigns no type to such a
+conditional, nor to one with a string arm). -/
 theorem ite_bool_counterexample :
     denote exCtx [] (.ite (.bool true) (.bool true) (.bool false)) = .ok (.bool true) ∧
     hasCTy exSig (.bool true : Val Int) .double = false ∧
